@@ -73,26 +73,32 @@ def oracle(chk, p, r, m):
             if not need:
                 continue
             srcs = [(x["srcdir"] + "/" + s if x["srcdir"] else s) for s in x["sources"] if "${" not in s and "${" not in (x["srcdir"] or "")]
-            for st in comp:
-                if st["inputs"][0] not in srcs:
-                    continue
-                chk.count("compile-with-build-deps")
+            def failure(st):
+                """the first requirement the compile statement `st` of module x misses, or None"""
                 if not x["is_global_build_dep"]:
                     for ga in global_aliases:
                         if ga not in st["order_only"]:
-                            chk.fail_oracle("order:global-custom-outs-missing", f"{key}: {st['inputs'][0]} of {x['name']} does not wait for {ga} (outputs of a global build dep the link waits for)",
-                                            {"project": p, "build": list(key)})
-                            return
+                            return ("order:global-custom-outs-missing", f"{key}: {st['inputs'][0]} of {x['name']} does not wait for {ga} (outputs of a global build dep the link waits for)")
                 for dn, files, has_build in need:
                     for f in files:
                         if f not in st["order_only"]:
-                            chk.fail_oracle("order:dep-file-missing", f"{key}: {st['inputs'][0]} of {x['name']} does not list {f} of build dep {dn} as order-only dependency",
-                                            {"project": p, "build": list(key)})
-                            return
+                            return ("order:dep-file-missing", f"{key}: {st['inputs'][0]} of {x['name']} does not list {f} of build dep {dn} as order-only dependency")
                     if has_build and not any(o in aliases for o in st["order_only"]):
-                        chk.fail_oracle("order:custom-outs-missing", f"{key}: {st['inputs'][0]} of {x['name']} does not depend on the outputs of custom build {dn}",
-                                        {"project": p, "build": list(key)})
-                        return
+                        return ("order:custom-outs-missing", f"{key}: {st['inputs'][0]} of {x['name']} does not depend on the outputs of custom build {dn}")
+                return None
+            for src in srcs:
+                sts_for = [st for st in comp if st["inputs"][0] == src]
+                if not sts_for:
+                    continue
+                chk.count("compile-with-build-deps")
+                # a source listed by several modules of the build is compiled once per module (different environments / dependencies):
+                # which statement belongs to x cannot be told from the file, so one of them has to satisfy x's requirements
+                fails = [failure(st) for st in sts_for]
+                if all(f is not None for f in fails):
+                    if len(sts_for) > 1:
+                        chk.count("source-shared-by-several-modules")
+                    chk.fail_oracle(fails[0][0], fails[0][1], {"project": p, "build": list(key)})
+                    return
         # the link depends on the global build deps' files
         link = [st for st in prod.get(b["outfile"], [])]
         if link and link[0]["rule"].startswith("POST_LINK_"):
